@@ -65,6 +65,27 @@ Theorem parse_history_independent_partial : forall cap fmt cos c macros files,
 Proof. exact parse_history_independent_lemma. Qed.
 Print Assumptions parse_history_independent_partial.
 
+(* in the default (strict) reporting mode nothing is left over at all: after any history that does
+   not switch strict mode off (failed runs, capture() blocks, the F27 call ... included) the three
+   errors-module cells are exactly as in a fresh process *)
+Theorem strict_mode_cells_untouched : forall cap fmt cos,
+  Forall (fun co => keeps_strict (snd co)) cos -> g_err (final cap fmt G0 cos) = errs0.
+Proof. exact run_errs0. Qed.
+Print Assumptions strict_mode_cells_untouched.
+
+(* ... hence a fresh reader returns exactly what it returns in a fresh process (F27 call excluded) *)
+Theorem parse_history_independent_strict_partial : forall cap fmt cos c macros files,
+  Forall (fun co => safe_op (snd co) /\ keeps_strict (snd co)) cos ->
+  snd (step cap fmt (final cap fmt G0 cos) (c, OParse macros files)) = snd (step cap fmt G0 (c, OParse macros files)).
+Proof. exact parse_history_independent_strict_lemma. Qed.
+Print Assumptions parse_history_independent_strict_partial.
+
+(* in every mode: after any history every capture() block has been left -- also by the exceptions of
+   failed runs -- and normal reporting is in force *)
+Theorem capture_never_leaks : forall cap fmt cos, e_captured (g_err (final cap fmt G0 cos)) = None.
+Proof. intros cap fmt cos. exact (run_captured_none cap fmt cos G0 eq_refl). Qed.
+Print Assumptions capture_never_leaks.
+
 (* the files of ONE reader accumulate: parse_files (fs1 ++ fs2) is parse_files fs2 continued from
    the macro table, database and reporting state that fs1 left (and stops where fs1 raised) *)
 Theorem reader_accumulates : forall fs1 fs2 cell rd e,
@@ -155,6 +176,16 @@ Example f19_value_same_reports_differ :
   let fresh := snd (step 1024 noisy_fmt G0 (true, probe_name)) in
   o_val after = o_val fresh /\ o_val fresh = Ok (VStr [97%N]) /\ o_captured after = Some [] /\ o_captured fresh = Some [(E_NAME, [97%N])].
 Proof. vm_compute. auto. Qed.
+
+(* a history meeting safe_op and keeps_strict that contains a failed run, a failed run inside
+   capture(), cache traffic and a live reader; the probe after it is a failing parse *)
+Example strict_history_example :
+  let cos := [(false, OParse None [ex_file2]); (true, OParse None [ex_file2; ex_file1]); (false, ONewReader None);
+              (true, OFeed 0 ex_file1); (false, OFormatName [97%N] 3%Z []); (false, OSetStrict true)] in
+  Forall (fun co => safe_op (snd co) /\ keeps_strict (snd co)) cos /\
+  o_val (snd (step 2 no_fmt G0 (false, OParse None [ex_file2]))) = PyErr E_UNDEF (-1)%Z /\
+  o_captured (snd (step 2 no_fmt G0 (true, OParse None [ex_file2; ex_file1]))) = Some [(E_UNDEF, ex_m)].
+Proof. vm_compute. repeat split; repeat constructor. Qed.
 
 Example quiet_example : quiet no_fmt /\ ~ quiet noisy_fmt.
 Proof. split; [intros n f; reflexivity | intro H; specialize (H [] []); discriminate]. Qed.
